@@ -7,6 +7,7 @@ import (
 
 	"github.com/google/osv-scalibr/extractor"
 	"github.com/google/osv-scalibr/extractor/filesystem"
+	"github.com/google/osv-scalibr/extractor/filesystem/language/java/pomxmlnet"
 	"github.com/google/osv-scalibr/internal/verifrt"
 	"github.com/google/osv-scalibr/inventory"
 	"github.com/google/osv-scalibr/plugin"
@@ -51,4 +52,49 @@ func VerifFilter() {
 		verifrt.Assert(verifrt.Iff(kept, want[i]), "plugin kept iff its requirements are satisfied, order preserved")
 	}
 	verifrt.Assert(k == len(out), "nothing else in the filtered list")
+}
+
+// VerifNames: plugin names are unique, every advertised plugin name resolves, and resolving a
+// plugin's own name returns that plugin.
+func VerifNames() {
+	// extractorNames: every name the package resolves (plugin names and group names)
+	names := make([]string, 0, len(extractorNames))
+	for name := range extractorNames {
+		names = append(names, name)
+	}
+	// deterministic order for the case split
+	for i := range names {
+		for j := i + 1; j < len(names); j++ {
+			if names[j] < names[i] {
+				names[i], names[j] = names[j], names[i]
+			}
+		}
+	}
+	verifrt.ObserveInt("names", len(names))
+	name := names[verifrt.Choice("name", len(names))]
+	fns := extractorNames[name]
+	verifrt.Assert(len(fns) >= 1, "an advertised name has an initialiser")
+	if len(fns) == 0 {
+		return
+	}
+	own := fns[0]().Name()
+	if _, isPlugin := All[name]; isPlugin || own == name {
+		// a plugin name (not a group name): it is unique and resolves to that plugin
+		verifrt.Reach("plugin-name")
+		verifrt.Assert(len(fns) == 1, "plugin names are unique")
+		ex, err := ExtractorFromName(name)
+		verifrt.Assert(err == nil && ex != nil && ex.Name() == name, "resolving a plugin's own name returns that plugin")
+	} else {
+		verifrt.Reach("group-name")
+		exs, err := ExtractorsFromNames([]string{name})
+		verifrt.Assert(err == nil && len(exs) >= 1 && len(exs) <= len(fns), "every advertised group name resolves to its plugins")
+	}
+}
+
+// The transitive pom.xml extractor's default configuration creates network clients (gRPC,
+// certificates, environment); its name and requirements do not depend on them.
+func stubPomxmlnetConfig(string) pomxmlnet.Config { return pomxmlnet.Config{} }
+
+var verifReplacements = map[string]any{
+	"github.com/google/osv-scalibr/extractor/filesystem/language/java/pomxmlnet.NewConfig": stubPomxmlnetConfig,
 }
